@@ -73,7 +73,7 @@ from ..cfg import cfg_of
 from ..model import UNKNOWN, AnchorError, Func, UnknownIdiom, short
 from . import c18 as _c18
 from .c17_helpers import (BOTH, OUT_EVENTS, RET_NONE, STATES, WS, WSModel, fold_local, literal_of, local_defs, possible, return_kinds,
-                          single_return_expr, values_at)
+                          single_return_expr, values_at, with_inert)
 from .common import ancestors, enclosing_map, implied, single, strip_await, walk_self
 
 ASGI_APP = 'falcon.asgi.app.App'
@@ -99,6 +99,8 @@ def _cellstr(cell):
 def feasible(cfg, atom):
     """edge filter pruning branch edges whose condition cannot have the needed truth value"""
     cache: Dict[int, Set[bool]] = {}
+    # a parameter with a constant default that no call of the package supplies evaluates as that default
+    atom = with_inert(getattr(cfg, 'project', None), getattr(cfg, 'func', None), atom)
 
     def ok(a, b, l):
         n = cfg.node(a)
@@ -897,6 +899,37 @@ def _ws_ctor(p, f, cfg):
 # R3
 # ---------------------------------------------------------------------------
 
+def _ws_helper_call(p, f: Func, c: ast.Call, ws_name: str):
+    """(helper Func, its parameter that receives the socket, {parameter: argument expression}) when `c` hands the socket
+    `ws_name` to a method of the class (`self._close_for_status(ws, ...)`) or a module-level function of the package
+    (`_close_with_status(ws, ...)`); None otherwise."""
+    fn = c.func
+    if isinstance(fn, ast.Name) and fn.id not in f.params():
+        # `cleanup = self._ws_cleanup_on_error` ... `await cleanup(ws)`: a local bound once to a bound method is that method
+        ds = local_defs(f, fn.id)
+        if len(ds) == 1 and isinstance(ds[0], ast.Attribute) and isinstance(ds[0].value, ast.Name) and ds[0].value.id == 'self':
+            fn = ds[0]
+            c = ast.copy_location(ast.Call(func=fn, args=c.args, keywords=c.keywords), c)
+    if not ((isinstance(fn, ast.Attribute) and isinstance(fn.value, ast.Name) and fn.value.id == 'self') or isinstance(fn, ast.Name)):
+        return None
+    if any(isinstance(a, ast.Starred) for a in c.args) or any(kw.arg is None for kw in c.keywords):
+        return None
+    m = p.callee(f, c)
+    if not isinstance(m, Func) or (isinstance(fn, ast.Name) and (m.cls is not None or m.parent is not None)):
+        return None
+    mp = [a for a in m.params() if not (m.cls is not None and a in ('self', 'cls'))]
+    bound: Dict[str, ast.AST] = {}
+    for i, a in enumerate(c.args):
+        if i < len(mp):
+            bound[mp[i]] = a
+    for kw in c.keywords:
+        bound[kw.arg] = kw.value
+    pos = [q for q, a in bound.items() if isinstance(a, ast.Name) and a.id == ws_name]
+    if len(pos) != 1:
+        return None
+    return m, pos[0], bound
+
+
 def _closing_nodes(p, f: Func, cfg, ws_name: str, depth=0) -> List[int]:
     """Nodes whose normal completion implies that <ws_name>.close() ran."""
     out = []
@@ -905,19 +938,10 @@ def _closing_nodes(p, f: Func, cfg, ws_name: str, depth=0) -> List[int]:
             fn = c.func
             if isinstance(fn, ast.Attribute) and fn.attr == 'close' and isinstance(fn.value, ast.Name) and fn.value.id == ws_name:
                 out.append(n.id)
-            elif isinstance(fn, ast.Attribute) and isinstance(fn.value, ast.Name) and fn.value.id == 'self' and depth < 3:
-                m = p.callee(f, c)
-                if isinstance(m, Func):
-                    mp = [a for a in m.params() if a != 'self']
-                    pos = None
-                    for i, a in enumerate(c.args):
-                        if isinstance(a, ast.Name) and a.id == ws_name and i < len(mp):
-                            pos = mp[i]
-                    for kw in c.keywords:
-                        if isinstance(kw.value, ast.Name) and kw.value.id == ws_name and kw.arg:
-                            pos = kw.arg
-                    if pos is not None and _always_closes(p, m, pos, None, depth + 1)[0] is None:
-                        out.append(n.id)
+            elif depth < 3:
+                h = _ws_helper_call(p, f, c, ws_name)
+                if h is not None and _always_closes(p, h[0], h[1], None, depth + 1)[0] is None:
+                    out.append(n.id)
     return out
 
 
@@ -1217,9 +1241,11 @@ def r3_session_paths(run):
         raise AnchorError('%s: responder call not found' % f.qual)
     closing = _closing_nodes(p, f, cfg, ws_name)
     avoid = [(a, y, l) for a in closing for (y, l) in cfg.succ[a] if l != 'exc']
+    # (branches on a parameter nobody passes - `_close_on_return: bool = True` - are evaluated for its default)
+    inert_ok = feasible(cfg, lambda e: None)
     for rn in resp_nodes:
         starts = [y for (y, l) in cfg.succ[rn] if l != 'exc']
-        path = flow.find_path(cfg, starts, [cfg.exit], avoid_edges=avoid, edge_filter=flow.no_exc)
+        path = flow.find_path(cfg, starts, [cfg.exit], avoid_edges=avoid, edge_filter=lambda a, b, l: l != 'exc' and inert_ok(a, b, l))
         run.check(path is None, '_handle_websocket: after the responder returns, close() is awaited on every normal path', f, cfg.node(rn).ast,
                   witness=flow.describe_path(cfg, [rn] + path) if path else None,
                   runtime_witness='a responder that returns without closing leaves the connection open (no websocket.close sent)')
@@ -1335,21 +1361,36 @@ def _r3_close_codes(run):
         for nid in closing:
             for c in hc.node(nid).calls():
                 fn = c.func
+                scope, bound = h, {}
                 if not (isinstance(fn, ast.Attribute) and fn.attr == 'close' and isinstance(fn.value, ast.Name) and fn.value.id == 'ws'):
-                    continue
+                    # the close made by a helper that is handed the socket (and the status): judged at the helper's own close calls,
+                    # its parameters read as the handler's arguments
+                    hc_ = _ws_helper_call(p, h, c, 'ws') if is_http else None
+                    if hc_ is None:
+                        continue
+                    scope, wsp_, bound = hc_
+                    inner = [c2 for n2 in cfg_of(scope, p).live_nodes() for c2 in n2.calls() if isinstance(c2.func, ast.Attribute)
+                             and c2.func.attr == 'close' and isinstance(c2.func.value, ast.Name) and c2.func.value.id == wsp_]
+                    if not inner:
+                        raise UnknownIdiom('%s: %s closes the socket, but not by a close call of its own' % (h.qual, scope.qual))
+                else:
+                    inner = [c]
                 if not is_http:
                     # a generic-error handler that closes the socket itself: judged like the cleanup helper (configured code AND the
                     # fallback for a rejected code around that very call), see _cleanup_codes
                     continue
-                arg = _one_def(h, c.args[0]) if c.args else None
-                ok = False
-                if isinstance(arg, ast.Call) and len(arg.args) == 1:
-                    g = p.callee(h, arg)
-                    a = arg.args[0]
-                    if isinstance(g, Func) and isinstance(a, ast.Attribute) and a.attr == 'status_code' and isinstance(a.value, ast.Name) and a.value.id == exc_param:
-                        ok = _adds_3000(p, g)
-                run.check(ok, '%s closes with 3000 + the HTTP status code of the raised %s' % (h.name, (excq or '?').rsplit('.', 1)[-1]), h, c,
-                          runtime_witness='HTTPNotFound raised in on_websocket closes with a code other than 3404')
+                for c2 in inner:
+                    arg = _one_def(scope, c2.args[0]) if c2.args else None
+                    ok = False
+                    if isinstance(arg, ast.Call) and len(arg.args) == 1:
+                        g = p.callee(scope, arg)
+                        a = arg.args[0]
+                        if scope is not h and isinstance(a, ast.Name) and a.id in bound and not local_defs(scope, a.id):
+                            a = bound[a.id]
+                        if isinstance(g, Func) and isinstance(a, ast.Attribute) and a.attr == 'status_code' and isinstance(a.value, ast.Name) and a.value.id == exc_param:
+                            ok = _adds_3000(p, g)
+                    run.check(ok, '%s closes with 3000 + the HTTP status code of the raised %s' % (h.name, (excq or '?').rsplit('.', 1)[-1]), scope, c2,
+                              runtime_witness='HTTPNotFound raised in on_websocket closes with a code other than 3404')
         if not is_http:
             _cleanup_codes(run, model, h)
     # unrouted -> 404, missing responder -> 405
@@ -1390,19 +1431,12 @@ def _cleanup_codes(run, model: WSModel, h: Func):
     targets = []
     for n in hc.live_nodes():
         for c in n.calls():
-            m = p.callee(h, c) if isinstance(c.func, ast.Attribute) and isinstance(c.func.value, ast.Name) and c.func.value.id == 'self' else None
-            if isinstance(m, Func) and any(isinstance(a, ast.Name) and a.id == 'ws' for a in list(c.args) + [kw.value for kw in c.keywords]):
-                mp = [a for a in m.params() if a != 'self']
-                wsp = None
-                for i, a in enumerate(c.args):
-                    if isinstance(a, ast.Name) and a.id == 'ws' and i < len(mp):
-                        wsp = mp[i]
-                for kw in c.keywords:
-                    if isinstance(kw.value, ast.Name) and kw.value.id == 'ws' and kw.arg:
-                        wsp = kw.arg
-                if wsp is None:
-                    raise UnknownIdiom('%s: how %s receives the socket' % (h.qual, short(c)))
-                targets.append((m, wsp))
+            hc_ = _ws_helper_call(p, h, c, 'ws')        # a method of the class or a module-level function handed the socket
+            if hc_ is not None:
+                targets.append((hc_[0], hc_[1]))
+            elif isinstance(p.callee(h, c), Func) and any(isinstance(a, ast.Name) and a.id == 'ws' for a in list(c.args) + [kw.value for kw in c.keywords]) \
+                    and isinstance(c.func, ast.Attribute) and isinstance(c.func.value, ast.Name) and c.func.value.id == 'self':
+                raise UnknownIdiom('%s: how %s receives the socket' % (h.qual, short(c)))
             elif isinstance(c.func, ast.Attribute) and c.func.attr == 'close' and isinstance(c.func.value, ast.Name) and c.func.value.id == 'ws':
                 targets.append((h, 'ws'))
     if not targets:
@@ -1454,10 +1488,14 @@ def _cleanup_codes(run, model: WSModel, h: Func):
                 for t in cfg.live_nodes():
                     if t.kind == 'test' and any(flow.dominated_by_edge(cfg, n2.id, e) for e in flow.edges_out(cfg, t.id, 'T')):
                         for x in walk_self(t.ast):
-                            if isinstance(x, ast.Compare) and len(x.ops) == 1 and isinstance(x.ops[0], ast.In) and isinstance(x.left, ast.Constant) \
-                                    and isinstance(x.left.value, str):
-                                lower = any(isinstance(y, ast.Attribute) and y.attr == 'lower' for y in walk_self(x.comparators[0]))
-                                lits.append((x.left.value, lower, x))
+                            if isinstance(x, ast.Compare) and len(x.ops) == 1 and isinstance(x.ops[0], ast.In):
+                                # the marker: a literal or a module-level constant; the text searched: in place or a local bound
+                                # once (`message = str(ex).lower()`)
+                                marker = fold_local(p, m, x.left)
+                                if not isinstance(marker, str):
+                                    continue
+                                lower = any(isinstance(y, ast.Attribute) and y.attr == 'lower' for y in walk_self(_one_def(m, x.comparators[0])))
+                                lits.append((marker, lower, x))
                 msgs = _range_rejection_messages(p, model)
                 for (lit, lower, x) in lits:
                     missing = [mm for mm in msgs if lit not in (mm.lower() if lower else mm)]
@@ -1609,33 +1647,41 @@ NON_INT = _NonInt()
 _DISJOINT_FROM_INT = ('builtins.str', 'builtins.bytes', 'builtins.bytearray', 'builtins.float', 'builtins.tuple', 'builtins.list', 'builtins.dict')
 
 
-def _code_predicate(e, derived=frozenset()) -> bool:
+def _code_predicate(e, derived=frozenset(), name='code') -> bool:
     """e is a truth-valued expression over the close code: a comparison / isinstance() that mentions `code`, a boolean local already
     known to be computed from it, or not/and/or of such"""
     if isinstance(e, ast.Compare) or (isinstance(e, ast.Call) and isinstance(e.func, ast.Name) and e.func.id == 'isinstance'):
-        return any(isinstance(x, ast.Name) and x.id == 'code' for x in walk_self(e))
+        return any(isinstance(x, ast.Name) and x.id == name for x in walk_self(e))
     if isinstance(e, ast.Name):
         return e.id in derived
     if isinstance(e, ast.UnaryOp) and isinstance(e.op, ast.Not):
-        return _code_predicate(e.operand, derived)
+        return _code_predicate(e.operand, derived, name)
     if isinstance(e, ast.BoolOp):
-        return any(_code_predicate(v, derived) for v in e.values) and all(
-            _code_predicate(v, derived) or isinstance(v, (ast.Compare, ast.Constant)) for v in e.values)
+        return any(_code_predicate(v, derived, name) for v in e.values) and all(
+            _code_predicate(v, derived, name) or isinstance(v, (ast.Compare, ast.Constant)) for v in e.values)
     return False
 
 
 class _CloseEval:
     """Evaluation of close()'s validation for one value of `code`: an integer, None, or the abstract NON_INT (type partition
-    {None, int, anything else} of the argument)."""
+    {None, int, anything else} of the argument).
 
-    def __init__(self, p, model: WSModel):
+    The validation is read where it is made: in close() itself, or in a synchronous helper of the class / module that is handed
+    the code - `code = _validate_close_code(code)` (the helper's returns are the new value), `self._check_close_code(code)` as a
+    statement (it returns normally or raises), `if _is_reserved(code): raise` (a one-expression predicate).  Each helper is
+    evaluated by an evaluator of its own for the parameter that receives the code."""
+
+    def __init__(self, p, model: WSModel, f: Optional[Func] = None, name: str = 'code', depth: int = 0):
         self.p = p
         self.model = model
-        self.f = p.func(WS + '.close')
-        if 'code' not in self.f.params():
-            raise AnchorError('%s has no code parameter' % self.f.qual)
+        self.f = f if f is not None else p.func(WS + '.close')
+        self.name = name
+        self.depth = depth
+        if name not in self.f.params():
+            raise AnchorError('%s has no %s parameter' % (self.f.qual, name))
         self.cfg = cfg_of(self.f, p)
         self.type_errors: List[str] = []
+        self.returns: Set[object] = set()
         # boolean locals computed from the close code (`reserved = 1015 <= code and code <= 1999` ... `if not reserved: reserved =
         # 1004 <= code and code <= 1006` ... `if reserved: raise`): evaluated along the path like the tests themselves (run() keeps
         # their truth value per path).  Every binding of such a local must be a predicate of the code / a bool constant.
@@ -1644,9 +1690,9 @@ class _CloseEval:
             before = set(self.derived)
             for n in walk_self(self.f.node):
                 if isinstance(n, (ast.Assign, ast.AnnAssign, ast.NamedExpr)) and getattr(n, 'value', None) is not None \
-                        and _code_predicate(n.value, frozenset(self.derived)):
+                        and _code_predicate(n.value, frozenset(self.derived), name):
                     tg = n.targets if isinstance(n, ast.Assign) else [n.target]
-                    self.derived |= {t.id for t in tg if isinstance(t, ast.Name) and t.id != 'code'}
+                    self.derived |= {t.id for t in tg if isinstance(t, ast.Name) and t.id != name}
             if self.derived == before:
                 break
         if self.derived & set(self.f.params()):
@@ -1661,16 +1707,35 @@ class _CloseEval:
                 raise UnknownIdiom('%s: a local computed from the close code is rebound by something that is not a plain assignment' % self.f.qual)
         self.consts: Set[int] = set()
         for n in walk_self(self.f.node):
-            if isinstance(n, ast.Compare) and any(isinstance(x, ast.Name) and x.id == 'code' for x in walk_self(n)):
+            if isinstance(n, ast.Compare) and any(isinstance(x, ast.Name) and x.id == name for x in walk_self(n)):
                 for x in [n.left] + list(n.comparators):
                     xs = x.elts if isinstance(x, (ast.Tuple, ast.List, ast.Set)) else [x]
                     for y in xs:
                         v = p.fold(self.f.module, y, None, self.f)
                         if isinstance(v, int) and not isinstance(v, bool):
                             self.consts.add(v)
+        # helpers handed the code
+        from .c15_helpers import bound_args, key_helper
+        self.helpers: Dict[int, '_CloseEval'] = {}
+        for n in walk_self(self.f.node):
+            if not isinstance(n, ast.Call) or self.model.is_raw_send_call(n):
+                continue
+            if not any(isinstance(a, ast.Name) and a.id == name for a in list(n.args) + [k.value for k in n.keywords]):
+                continue
+            g = key_helper(p, self.f, n)
+            if g is None or g is self.f:
+                continue
+            qs = [q for q, a in bound_args(g, n).items() if isinstance(a, ast.Name) and a.id == name]
+            if len(qs) != 1:
+                raise UnknownIdiom('%s: %s hands the close code to %s more than once' % (self.f.qual, short(n), g.name))
+            if depth >= 2:
+                raise UnknownIdiom('%s: the close code is handed down more than two helper levels' % self.f.qual)
+            sub = _CloseEval(p, model, g, qs[0], depth + 1)
+            self.helpers[id(n)] = sub
+            self.consts |= sub.consts
 
     def _val(self, e, code):
-        if isinstance(e, ast.Name) and e.id == 'code':
+        if isinstance(e, ast.Name) and e.id == self.name:
             return code
         v = self.p.fold(self.f.module, e, None, self.f)
         if v is UNKNOWN:
@@ -1679,8 +1744,19 @@ class _CloseEval:
 
     def atom(self, code, env=()):
         known = dict(env)
+        name = self.name
 
         def atom(e):
+            if isinstance(e, ast.Call) and id(e) in self.helpers:
+                # a predicate helper: `if _is_reserved(code): raise ...` with `return 1015 <= code <= 1999 or ...`
+                sub = self.helpers[id(e)]
+                body = single_return_expr(sub.f)
+                if body is None or not _code_predicate(body, frozenset(), sub.name):
+                    raise UnknownIdiom('%s: the result of %s is tested, but it is not a one-expression test of the code' % (self.f.qual, short(e)))
+                sub.type_errors = []
+                r = possible(body, sub.atom(code))
+                self.type_errors += sub.type_errors
+                return r
             if self.derived and any(isinstance(x, ast.Name) and x.id in self.derived for x in walk_self(e)):
                 if isinstance(e, ast.Name):
                     if e.id not in known:
@@ -1689,12 +1765,12 @@ class _CloseEval:
                 if isinstance(e, ast.BoolOp) or (isinstance(e, ast.UnaryOp) and isinstance(e.op, ast.Not)):
                     return None  # decomposed by possible()
                 raise UnknownIdiom('%s: test %s over a local computed from the close code' % (self.f.qual, short(e)))
-            if not any(isinstance(x, ast.Name) and x.id == 'code' for x in walk_self(e)):
+            if not any(isinstance(x, ast.Name) and x.id == name for x in walk_self(e)):
                 return None
             if isinstance(e, ast.Name):
                 return {True, False} if code is NON_INT else {bool(code)}
             if isinstance(e, ast.Call) and isinstance(e.func, ast.Name) and e.func.id == 'isinstance' and len(e.args) == 2 \
-                    and isinstance(e.args[0], ast.Name) and e.args[0].id == 'code':
+                    and isinstance(e.args[0], ast.Name) and e.args[0].id == name:
                 t = self.p.resolve_expr(self.f.module, e.args[1], self.f)
                 if t == 'builtins.int':
                     return {False} if code is NON_INT else {isinstance(code, int)}
@@ -1710,7 +1786,7 @@ class _CloseEval:
             if isinstance(e, ast.Compare) and code is NON_INT:
                 # identity with None is decided (the abstract value is not None); every other comparison of a non-int value
                 # with a constant has no outcome the rule may rely on (TypeError for str/bytes/tuple, numeric for float)
-                if len(e.ops) == 1 and isinstance(e.ops[0], (ast.Is, ast.IsNot)) and isinstance(e.left, ast.Name) and e.left.id == 'code' \
+                if len(e.ops) == 1 and isinstance(e.ops[0], (ast.Is, ast.IsNot)) and isinstance(e.left, ast.Name) and e.left.id == name \
                         and isinstance(e.comparators[0], ast.Constant) and e.comparators[0].value is None:
                     return {isinstance(e.ops[0], ast.IsNot)}
                 if any(isinstance(o, (ast.Lt, ast.LtE, ast.Gt, ast.GtE)) for o in e.ops):
@@ -1758,11 +1834,15 @@ class _CloseEval:
         return atom
 
     def run(self, code):
-        """-> (raised classes, raw send reachable, wire code values)"""
+        """-> (raised [(class, (evaluator, raise node id))], raw send reachable, wire code values); self.returns = the values the
+        function can hand back (for a helper)"""
         cfg, f, p = self.cfg, self.f, self.p
+        name = self.name
         seen = set()
         work = [(cfg.entry, code, ())]
         raised, sent, wire = set(), False, set()
+        self.returns = set()
+        live = {n.id for n in cfg.live_nodes()}
         while work:
             nid, v, env = work.pop()
             if (nid, repr(v), env) in seen:
@@ -1771,7 +1851,19 @@ class _CloseEval:
             n = cfg.node(nid)
             if n.kind == 'stmt' and isinstance(n.ast, ast.Raise):
                 e = n.ast.exc.func if isinstance(n.ast.exc, ast.Call) else n.ast.exc
-                raised.add((p.resolve_expr(f.module, e, f) if e is not None else None, nid))
+                raised.add((p.resolve_expr(f.module, e, f) if e is not None else None, (self, nid)))
+                continue
+            if n.kind == 'stmt' and isinstance(n.ast, ast.Return):
+                rv = n.ast.value
+                if rv is None or (isinstance(rv, ast.Constant) and rv.value is None):
+                    self.returns.add(None)
+                elif isinstance(rv, ast.Name) and rv.id == name:
+                    self.returns.add(v)
+                else:
+                    c = p.fold(f.module, rv, None, f)
+                    if c is UNKNOWN and self.depth > 0:
+                        raise UnknownIdiom('%s: returns %s' % (f.qual, short(rv)))
+                    self.returns.add(c if c is not UNKNOWN else '?')
                 continue
             if any(self.model.is_raw_send_call(c) for c in n.calls()):
                 sent = True
@@ -1779,29 +1871,55 @@ class _CloseEval:
                 if isinstance(x, ast.Dict):
                     for k, val in zip(x.keys, x.values):
                         if isinstance(k, ast.Constant) and k.value == 'code':
-                            wire.add(v if isinstance(val, ast.Name) and val.id == 'code' else '?' + short(val))
-            v2 = v
+                            wire.add(v if isinstance(val, ast.Name) and val.id == name else '?' + short(val))
+            v2s = [v]
             envs = [env]
             at = self.atom(v, env)
-            if n.kind == 'stmt' and isinstance(n.ast, (ast.Assign, ast.AnnAssign, ast.AugAssign)):
+            # helpers handed the code in this node
+            hcalls = [c for c in n.calls() if id(c) in self.helpers]
+            handled = set()
+            if hcalls and n.kind == 'stmt' and isinstance(n.ast, (ast.Assign, ast.AnnAssign, ast.Expr)) and n.ast.value is not None \
+                    and id(strip_await(n.ast.value)) in self.helpers:
+                call = strip_await(n.ast.value)
+                sub = self.helpers[id(call)]
+                r_s, sent_s, wire_s = sub.run(v)
+                raised |= r_s
+                sent = sent or sent_s
+                wire |= wire_s
+                handled.add(id(call))
+                if isinstance(n.ast, ast.Expr):
+                    if not sub.returns:
+                        continue                 # the helper refuses this value: nothing follows
+                else:
+                    tg = n.ast.targets if isinstance(n.ast, ast.Assign) else [n.ast.target]
+                    if len(tg) != 1 or not (isinstance(tg[0], ast.Name) and tg[0].id == name):
+                        raise UnknownIdiom('%s: the result of the code helper is bound by %s' % (f.qual, short(n.ast)))
+                    if not sub.returns:
+                        continue
+                    if any(r == '?' for r in sub.returns):
+                        raise UnknownIdiom('%s: what %s returns is not the code or a constant' % (f.qual, sub.f.qual))
+                    v2s = sorted(sub.returns, key=repr)
+            if n.kind != 'test' and any(id(c) not in handled for c in hcalls):
+                raise UnknownIdiom('%s: cannot read how %s uses the helper that is handed the close code' % (f.qual, short(n.ast, 80)))
+            if n.kind == 'stmt' and isinstance(n.ast, (ast.Assign, ast.AnnAssign, ast.AugAssign)) and not handled:
                 tg = n.ast.targets if isinstance(n.ast, ast.Assign) else [n.ast.target]
-                if any(isinstance(t, ast.Name) and t.id == 'code' for t in tg):
+                if any(isinstance(t, ast.Name) and t.id == name for t in tg):
                     nv = p.fold(f.module, n.ast.value, None, f) if not isinstance(n.ast, ast.AugAssign) else UNKNOWN
                     if nv is UNKNOWN:
                         raise UnknownIdiom('%s: close code rebound by %s' % (f.qual, short(n.ast)))
-                    v2 = nv
+                    v2s = [nv]
                 bound = [t.id for t in tg if isinstance(t, ast.Name) and t.id in self.derived]
                 if bound:
                     val = n.ast.value
-                    if isinstance(n.ast, ast.AugAssign) or val is None or len(tg) != len(bound) or v2 is not v or not (
-                            _code_predicate(val, frozenset(self.derived)) or (isinstance(val, ast.Constant) and isinstance(val.value, bool))):
+                    if isinstance(n.ast, ast.AugAssign) or val is None or len(tg) != len(bound) or v2s != [v] or not (
+                            _code_predicate(val, frozenset(self.derived), name) or (isinstance(val, ast.Constant) and isinstance(val.value, bool))):
                         raise UnknownIdiom('%s: %s binds a local computed from the close code to something that is not a test of the code'
                                            % (f.qual, short(n.ast)))
                     # the truth value of the test, per path (one successor state per possible outcome)
                     self.type_errors = []
                     outs = possible(val, at)
                     if self.type_errors:
-                        raised.add(('builtins.TypeError', nid))
+                        raised.add(('builtins.TypeError', (self, nid)))
                     envs = []
                     for o in sorted(outs):
                         d = dict(env)
@@ -1813,15 +1931,18 @@ class _CloseEval:
                 self.type_errors = []
                 outcomes = possible(n.ast, at)
                 if self.type_errors:
-                    raised.add(('builtins.TypeError', nid))
+                    raised.add(('builtins.TypeError', (self, nid)))
             for (y, l) in cfg.succ[nid]:
                 if l == 'exc':
                     continue
                 if n.kind == 'test' and l in ('T', 'F'):
                     if (l == 'T') not in outcomes:
                         continue
-                for e2 in envs:
-                    work.append((y, v2, e2))
+                if y == cfg.exit and not (n.kind == 'stmt' and isinstance(n.ast, ast.Return)):
+                    self.returns.add(None)        # falling off the end
+                for v2 in v2s:
+                    for e2 in envs:
+                        work.append((y, v2, e2))
         return raised, sent, wire
 
 
@@ -1835,20 +1956,25 @@ def _classify_code(p, model, v):
     return 'mixed: raised=%s sent=%s wire=%s' % (sorted(str(q) for (q, _n) in raised), sent, sorted(map(str, wire)))
 
 
+def _raise_message(p, ev: '_CloseEval', r: ast.Raise):
+    """folded message of `raise C(<message>)` in the evaluator's function"""
+    return p.fold(ev.f.module, r.exc.args[0], None, ev.f)
+
+
 def _range_rejection_messages(p, model) -> List[str]:
     """Folded messages of the ValueErrors close() raises for integer codes."""
     ce = _CloseEval(p, model)
     msgs = set()
     for v in _points(ce, lo=-10, hi=6000):
         raised, _sent, _wire = ce.run(v)
-        for (q, nid) in raised:
-            r = ce.cfg.node(nid).ast
+        for (q, (ev, nid)) in raised:
+            r = ev.cfg.node(nid).ast
             if isinstance(r.exc, ast.Call) and r.exc.args:
-                m = p.fold(ce.f.module, r.exc.args[0], None, ce.f)
+                m = _raise_message(p, ev, r)
                 if isinstance(m, str):
                     msgs.add(m)
                 else:
-                    raise UnknownIdiom('%s: message of %s' % (ce.f.qual, short(r)))
+                    raise UnknownIdiom('%s: message of %s' % (ev.f.qual, short(r)))
     return sorted(msgs)
 
 
@@ -1974,10 +2100,16 @@ def _reason_gates(run, model: WSModel):
     run.check(ok, 'close reasons are enabled exactly for ASGI spec versions >= 2.3', gate_fn, r,
               runtime_witness='a reason is sent to a 2.2 server (or withheld from a 2.3 server)')
 
-    def check_stores(f: Func, gate_atom):
+    def check_stores(f: Func, gate_atom0):
         cfg = cfg_of(f, p)
         run.use_cfg(cfg)
         cnt = 0
+
+        def gate_atom(e):
+            # in place, or through a local bound once to the gate (`supported = self._supports_reason` - the attribute is only
+            # written by the constructor - / `supported = _supports_reason(ver)`)
+            return gate_atom0(e) or (isinstance(e, ast.Name) and e.id not in f.params() and gate_atom0(strip_await(_one_def(f, e))))
+
         for n in cfg.live_nodes():
             hit = None
             if n.kind == 'stmt' and isinstance(n.ast, ast.Assign):
@@ -2038,14 +2170,34 @@ def r5_payload_types(run):
             raise UnknownIdiom('%s has no payload parameter' % f.qual)
         pay = params[0]
 
-        def is_check(e, pay=pay, f=f, types=types):
-            if isinstance(e, ast.Call) and isinstance(e.func, ast.Name) and e.func.id == 'isinstance' and len(e.args) == 2 \
-                    and isinstance(e.args[0], ast.Name) and e.args[0].id == pay:
-                mod, lit = literal_of(p, f, e.args[1])     # a module-level tuple of types bound once is its value
-                ts = lit.elts if isinstance(lit, ast.Tuple) else [lit]
-                qs = {p.resolve_expr(mod, t, f if mod is f.module else None) for t in ts}
-                return bool(qs) and qs <= types
-            return False
+        def mk_check(f, pay, types=types):
+            def is_check(e):
+                if isinstance(e, ast.Call) and isinstance(e.func, ast.Name) and e.func.id == 'isinstance' and len(e.args) == 2 \
+                        and isinstance(e.args[0], ast.Name) and e.args[0].id == pay:
+                    mod, lit = literal_of(p, f, e.args[1])     # a module-level tuple of types bound once is its value
+                    ts = lit.elts if isinstance(lit, ast.Tuple) else [lit]
+                    qs = {p.resolve_expr(mod, t, f if mod is f.module else None) for t in ts}
+                    return bool(qs) and qs <= types
+                return False
+            return is_check
+
+        is_check = mk_check(f, pay)
+
+        def helper_checks(call, f=f, pay=pay):
+            """`call` hands the payload to a synchronous helper of the class / module that returns normally only for an argument
+            of the admitted types (every normal path through it takes the true outcome of the isinstance test of that parameter)"""
+            from .c15_helpers import bound_args, key_helper
+            g = key_helper(p, f, call)
+            if g is None:
+                return False
+            qs = [q for q, a in bound_args(g, call).items() if isinstance(a, ast.Name) and a.id == pay]
+            if len(qs) != 1 or local_defs(g, qs[0]) or local_defs(f, pay):
+                return False
+            gcfg = cfg_of(g, p)
+            chk = mk_check(g, qs[0])
+            good = [e for t in gcfg.live_nodes() if t.kind == 'test' for lab, truth in (('T', True), ('F', False))
+                    if implied(t.ast, truth, chk) is True for e in flow.edges_out(gcfg, t.id, lab)]
+            return bool(good) and flow.find_path(gcfg, [gcfg.entry], [gcfg.exit], avoid_edges=good, edge_filter=flow.no_exc) is None
 
         emit_nodes = []
         for n in cfg.live_nodes():
@@ -2061,6 +2213,17 @@ def r5_payload_types(run):
                     continue
                 for lab, truth in (('T', True), ('F', False)):
                     if implied(t.ast, truth, is_check) is True and any(flow.dominated_by_edge(cfg, n.id, e) for e in flow.edges_out(cfg, t.id, lab)):
+                        ok = True
+            if not ok:
+                # the check made by a helper: called among the arguments of the emission itself (evaluated before the send), or
+                # in a statement whose normal completion dominates the emission
+                inner = [x for a in list(c.args) + [k.value for k in c.keywords] for x in walk_self(_one_def(f, a)) if isinstance(x, ast.Call)]
+                ok = any(helper_checks(x) for x in inner)
+                for t in cfg.live_nodes():
+                    if ok or t.id == n.id:
+                        continue
+                    if any(helper_checks(x) for x in t.calls()) and any(
+                            flow.dominated_by_edge(cfg, n.id, (t.id, y, l)) for (y, l) in cfg.succ[t.id] if l != 'exc'):
                         ok = True
             run.check(ok, '%s: the payload is type-checked (isinstance %s) before the event is sent' % (name, '/'.join(sorted(t.split('.')[1] for t in types))),
                       f, c, runtime_witness='ws.%s(123) hands a non-%s payload to the ASGI server' % (name, key))
@@ -2557,9 +2720,37 @@ class _PayloadEval:
     as the argument) or 'other'.  Tests on the type of a tracked local (``isinstance``, ``type(x) is C``) are evaluated,
     every other test is non-deterministic; locals are rebound by plain assignments."""
 
-    def __init__(self, p, f: Func, pay: str):
-        self.p, self.f, self.pay = p, f, pay
+    def __init__(self, p, f: Func, pay: Optional[str], depth: int = 0):
+        self.p, self.f, self.pay, self.depth = p, f, pay, depth
         self.cfg = cfg_of(f, p)
+
+    def through_helper(self, e: ast.Call, env) -> Optional[Set[tuple]]:
+        """The values a call of a synchronous helper of the class / module returns (`_as_bytes(payload)` with `if not
+        isinstance(payload, (bytes, ...)): raise` ... `return bytes(payload)`): the helper is evaluated like the method, its
+        parameters bound to the values of the arguments; a path that raises returns nothing.  None: not such a call."""
+        from .c15_helpers import bound_args, key_helper
+        g = key_helper(self.p, self.f, e) if self.depth < 2 else None
+        if g is None:
+            return None
+        bound = bound_args(g, e)
+        envs0 = [()]
+        for q, a in sorted(bound.items()):
+            vs = sorted(self.values(a, env))
+            envs0 = [e0 + ((q, v),) for e0 in envs0 for v in vs]
+            if len(envs0) > 16:
+                raise UnknownIdiom('%s: too many argument value combinations for %s' % (self.f.qual, short(e)))
+        sub = _PayloadEval(self.p, g, None, self.depth + 1)
+        rets = {n.id for n in sub.cfg.live_nodes() if n.kind == 'stmt' and isinstance(n.ast, ast.Return)}
+        for (x, l) in sub.cfg.pred[sub.cfg.exit]:
+            if x not in rets and l != 'exc' and x in {n.id for n in sub.cfg.live_nodes()}:
+                raise UnknownIdiom('%s: the helper %s can fall off its end' % (self.f.qual, g.qual))
+        out: Set[tuple] = set()
+        for e0 in envs0:
+            for nid, envs in sub.at(rets, None, env0=tuple(sorted(e0))).items():
+                rv = sub.cfg.node(nid).ast.value
+                for env2 in envs:
+                    out |= sub.values(rv, env2) if rv is not None else {('NoneType', 'other')}
+        return out
 
     def _builtin(self, e) -> Optional[str]:
         q = self.p.resolve_expr(self.f.module, e, self.f)
@@ -2656,12 +2847,18 @@ class _PayloadEval:
             for (t, c) in self.values(e.func.value, env):
                 out.add(('bytes', c) if t == 'memoryview' else (_UNREAD, 'other'))
             return out
+        if isinstance(e, ast.Call):
+            r = self.through_helper(e, env)
+            if r is not None:
+                return r
         return {(_UNREAD, 'other')}
 
-    def at(self, sink_ids: Set[int], t0: str) -> Dict[int, List[dict]]:
-        """environments in which each sink node is reached when the payload argument has type `t0`"""
+    def at(self, sink_ids: Set[int], t0: Optional[str], env0=None) -> Dict[int, List[dict]]:
+        """environments in which each sink node is reached when the payload argument has type `t0` (or from the explicit
+        entry environment env0)"""
         cfg = self.cfg
-        env0 = ((self.pay, (t0, 'payload')),)
+        if env0 is None:
+            env0 = ((self.pay, (t0, 'payload')),)
         seen = {(cfg.entry, env0)}
         work = [(cfg.entry, env0)]
         out: Dict[int, List[dict]] = {}
@@ -2910,6 +3107,11 @@ def r10_event_payloads(run):
         site_key.append((key, set(at), n.id, set(a for (_n2, _c2, ev2, at2) in sites if ev2 is not ev for a in at2 if a != n.id)))
         val = strip_await(_one_def(f, keys[key]))
         kind = None
+        if isinstance(val, ast.Call) and isinstance(val.func, ast.Name) and val.func.id not in f.params():
+            # `serialize = self._mh_text_serialize` ... `serialize(media)`: a local bound once is what it aliases
+            fn = _one_def(f, val.func)
+            if isinstance(fn, ast.Attribute):
+                val = ast.copy_location(ast.Call(func=fn, args=val.args, keywords=val.keywords), val)
         if isinstance(val, ast.Call) and isinstance(val.func, ast.Attribute) and isinstance(val.func.value, ast.Name) and val.func.value.id == 'self':
             kind = serializers.get(val.func.attr)
             if kind is None:
